@@ -20,6 +20,7 @@ Record FloatOps := {
   fle : F -> F -> bool;              (* a <= b  (f64 PartialOrd::le) *)
   fadd : F -> F -> F;                (* a + b *)
   fzero : F;                         (* 0.0 *)
+  fone : F;                          (* 1.0 *)
   fpinf : F;                         (* f64::INFINITY *)
   fninf : F;                         (* f64::NEG_INFINITY *)
   fisinf : F -> bool;                (* f64::is_infinite *)
